@@ -221,6 +221,28 @@ class TheJoker:
 
         if in_memory:
             if isinstance(prior_samples, JokerSamples):
+                if n_prior_samples is not None or randomize_prior_order:
+                    # Same semantics (and same random draws) as the file path:
+                    # run on the first / a random n_prior_samples of the library
+                    n_total_samples = len(prior_samples)
+                    if n_prior_samples is None:
+                        n_prior_samples = n_total_samples
+                    elif n_prior_samples > n_total_samples:
+                        raise ValueError(
+                            "Number of prior samples to use is greater than the "
+                            "number of prior samples passed: "
+                            f"n_prior_samples={n_prior_samples} vs. "
+                            f"n_total_samples={n_total_samples}"
+                        )
+
+                    if randomize_prior_order:
+                        idx = self.rng.choice(
+                            n_total_samples, size=n_prior_samples, replace=False
+                        )
+                    else:
+                        idx = np.arange(n_prior_samples)
+                    prior_samples = prior_samples[idx]
+
                 ln_prior = None
                 if return_logprobs:
                     ln_prior = prior_samples["ln_prior"]
